@@ -286,7 +286,51 @@ profile(
     bad=lambda kw, t: _corrupt(kw, [["any_f", "tup_f", "all_f"][t % 3]], [1.5]),
     setf=lambda t: ("any_f", _s(t, 8)))
 
+
+
+def _conv(v):
+    """('Inner', {...}) markers of harness/props/c20.py -> ('@', 'Inner', {...})"""
+    if isinstance(v, tuple) and len(v) == 2 and isinstance(v[0], str) and v[0] in ("Inner", "Flat") and isinstance(v[1], dict):
+        return ("@", v[0], {a: _conv(b) for a, b in v[1].items()})
+    if isinstance(v, list):
+        return [_conv(x) for x in v]
+    if isinstance(v, collections.deque):
+        return collections.deque(_conv(x) for x in v)
+    if isinstance(v, tuple):
+        return tuple(_conv(x) for x in v)
+    if isinstance(v, dict):
+        return {a: _conv(b) for a, b in v.items()}
+    return v
+
+
+def _kind_profiles():
+    from harness.props import c20 as P
+    for k in P.KINDS:
+        def val(t, k=k):
+            n = k.get("fixed_n", P.SIZES[t % len(P.SIZES)])
+            return {FIELD: _conv(k["val"](t, n)), "s": "t%d" % t}
+
+        def bad(kw, t, k=k):
+            # thread 0: the field under test is invalid; thread 1: the OTHER field is (error messages must name one's own)
+            if t % 2 == 0:
+                n = k.get("fixed_n", P.SIZES[t % len(P.SIZES)])
+                return {FIELD: _conv(k["bad"](k["val"](t, n))), "s": "t%d" % t}
+            return dict(kw, s=[t])
+
+        def setf(t, k=k):
+            return (FIELD, _conv(k["val"](t, 2)))
+        profile("kind:" + k["name"], P.INNER + "class K(Structure):\n    %s = %s\n    s = String\n" % (FIELD, k["decl"]), "K",
+                val=val, bad=bad, setf=setf, tags=["kind"])
+
+
+_kind_profiles()
 PROFILE = {p["name"]: p for p in PROFILES}
+KIND_PAIRS = [
+    (("construct", True), ("construct", False)),
+    (("deserialize", True), ("setattr", True)),
+    (("construct", False), ("deserialize", False)),
+    (("construct_serialize", "serialize"), ("setattr", False)),
+]
 
 
 # ---------------------------------------------------------------------------- realisation
@@ -489,11 +533,18 @@ def pairs(tier):
 
 
 def tasks(tier, rnd, chunk=450):
-    """-> list of explore_task argument tuples (longest first)"""
-    occ = 1 if tier == "quick" else 3
-    extra2 = 0 if tier == "quick" else 40
+    """-> list of explore_task argument tuples"""
+    quick = tier == "quick"
+    occ = 1 if quick else 2
+    extra2 = 0 if quick else 30
     out = []
-    for p in PROFILES:
+    rot = core.seed()
+    for i, p in enumerate(PROFILES):
+        if "kind" in p["tags"]:
+            prs = [KIND_PAIRS[(i + rot) % len(KIND_PAIRS)]] if quick else KIND_PAIRS
+            for pr in prs:
+                out.append((p["name"], pr, False, occ, extra2, rnd.randrange(1 << 30)))
+            continue
         for pr, states in pairs(tier):
             for cold in (True, False):
                 if ("c" if cold else "w") not in states:
@@ -501,6 +552,11 @@ def tasks(tier, rnd, chunk=450):
                 if cold and not all(cold_ok(p, s) for s in pr):
                     continue
                 out.append((p["name"], pr, cold, occ, extra2, rnd.randrange(1 << 30)))
+        if not quick:
+            # three threads: the third repeats the first operation on its own input
+            for pr, states in pairs(tier)[:4]:
+                cold = "c" in states and all(cold_ok(p, s_) for s_ in pr)
+                out.append((p["name"], pr + (pr[0],), cold, occ, 60, rnd.randrange(1 << 30)))
     return out
 
 
@@ -540,6 +596,16 @@ def _warm(p, twin, spec_pair):
 
 def _schedules(recs, occ, extra2, rnd):
     scheds = []
+    if len(recs) == 3:
+        # three threads, two pre-emptions, sampled: A k1 | B k2 | C all | B rest | A rest   (all role assignments)
+        import itertools
+        perms = list(itertools.permutations(range(3)))
+        for _ in range(extra2 * 3):
+            a, b, c = perms[rnd.randrange(len(perms))]
+            if len(recs[a]) > 1 and len(recs[b]) > 1:
+                scheds.append([(a, rnd.randrange(1, len(recs[a]) + 1)), (b, rnd.randrange(1, len(recs[b]) + 1)),
+                               (c, None), (b, None), (a, None)])
+        return scheds
     for a in range(len(recs)):
         b = 1 - a
         for k in thin(recs[a], occ):
@@ -691,14 +757,21 @@ def diff_fields(a, b):
 VALIDATING = ("construct", "deserialize", "deser_fn", "setattr", "roundtrip", "construct_serialize")
 
 
-def in_racy(tok, p):
-    return tok is not None and any(tok == f or tok.startswith(f + "_") for f in p["racy_fields"])
+def racy_field(tok, p):
+    """the racy-validator field of the profile an element-slot name such as `line_items_1` belongs to"""
+    if tok is None:
+        return None
+    for f in sorted(p["racy_fields"], key=len, reverse=True):
+        if tok == f or tok.startswith(f + "_"):
+            return f
+    return None
 
 
 def symptom(dev, t):
-    """-> (symptom, description, is_F15_shaped).  F15-shaped: both operations validate, and the deviation is an
-    AttributeError/KeyError naming an element slot of an Array.Each/Deque.Each/Tuple.Uniform field of the profile,
-    or a result that differs only inside such a field and only by misplaced own elements."""
+    """-> (symptom, description, F15-shaped field or None).  F15-shaped: all operations validate, and the deviation
+    is an AttributeError/KeyError naming an element slot of a field whose declaration contains a validator the MODEL
+    classifies racy (per-element rewriting of a shared name), or a result that differs only inside such fields and
+    only by the thread's own elements."""
     p = PROFILE[dev["profile"]]
     obs, seq = dev["observed"][t], dev["sequential"][t]
     validating = all(o[0] in VALIDATING for o in dev["ops"])
@@ -712,20 +785,24 @@ def symptom(dev, t):
         where = ",".join(str(f) for f in fields)
         if foreign:
             return "foreign-value", "result differs in %s and contains %r taken from another thread's input: %r instead of %r" % (
-                where, foreign[:4], obs[1], seq[1]), False
-        f15 = validating and fields and all(f in p["racy_fields"] for f in fields)
-        return "wrong-result", "result differs in %s: %r instead of %r" % (where, obs[1], seq[1]), bool(f15)
+                where, foreign[:4], obs[1], seq[1]), None
+        f15 = None
+        if validating and fields and all(f in p["racy_fields"] for f in fields) and all(x in own for x in leaves(obs[1])):
+            f15 = fields[0]
+        return "wrong-result", "result differs in %s: %r instead of %r" % (where, obs[1], seq[1]), f15
     if obs[0] == "raise" and seq[0] == "ok":
-        f15 = validating and obs[1] in ("AttributeError", "KeyError") and in_racy(obs[2], p)
+        f15 = racy_field(obs[2], p) if validating and obs[1] in ("AttributeError", "KeyError") else None
         return "unexpected-exception:" + obs[1], "%s: %s (run alone it returns %r)" % (obs[1], obs[3], seq[1]), f15
     if obs[0] == "ok" and seq[0] == "raise":
-        return "lost-exception", "returned %r; run alone it raises %s: %s" % (obs[1], seq[1], seq[3]), False
+        return "lost-exception", "returned %r; run alone it raises %s: %s" % (obs[1], seq[1], seq[3]), None
     if obs[0] == "raise" and seq[0] == "raise":
-        f15 = validating and obs[1] in ("AttributeError", "KeyError") and in_racy(obs[2], p)
+        f15 = racy_field(obs[2], p) if validating and obs[1] in ("AttributeError", "KeyError") else None
         if obs[1] == seq[1]:
+            if validating and racy_field(obs[2], p) is not None and racy_field(obs[2], p) == racy_field(seq[2], p):
+                f15 = racy_field(obs[2], p)         # another element slot of the same field is named
             return "wrong-field-named", "%s names %r; run alone it names %r (%s)" % (obs[1], obs[2], seq[2], obs[3]), f15
         return "different-exception", "%s: %s; run alone %s: %s" % (obs[1], obs[3], seq[1], seq[3]), f15
-    return "hung", "operation did not finish", False
+    return "hung", "operation did not finish", None
 
 
 def divergence(solo, inter, root):
@@ -852,20 +929,63 @@ def class_tree(cls, depth=0):
     return P.struct(*[field_tree(f, depth + 1) for f in cls.get_all_fields_by_name().values()])
 
 
+def _reachable_classes(top):
+    """the Structure classes instances of which can occur inside an instance of `top`"""
+    from typedpy import Structure
+    from typedpy.structures import ClassReference, Field
+    seen, todo = [], [top]
+
+    def walk(f, depth=0):
+        if depth > 8:
+            return
+        if isinstance(f, ClassReference):
+            todo.append(f._ty)
+            return
+        if isinstance(f, type) and issubclass(f, Structure):
+            todo.append(f)
+            return
+        items = getattr(f, "items", None)
+        for x in (items if isinstance(items, (list, tuple)) else [items]):
+            if isinstance(x, (Field, type)):
+                walk(x, depth + 1)
+        if hasattr(f, "get_fields"):
+            try:
+                for x in f.get_fields():
+                    walk(x, depth + 1)
+            except Exception:  # noqa
+                pass
+    while todo:
+        c = todo.pop()
+        if c in seen or not (isinstance(c, type) and issubclass(c, Structure)):
+            continue
+        seen.append(c)
+        for f in c.get_all_fields_by_name().values():
+            walk(f)
+    return seen
+
+
 def profile_field_trees():
-    """[(profile name, field name, serialized key, tree)] for every top-level field of every profile"""
+    """[(profile name, field name, serialized key, tree)] for every field of every Structure class a profile declares
+    (nested classes included: an element slot `ys_1` of a nested class's Array field is named in messages too)"""
+    from typedpy import Structure
     from typedpy.serialization.mappers import aggregate_serialization_mappers
     out = []
     for p in PROFILES:
         ns = declare(p)
-        top = ns[p["top"]]
-        try:
-            mp = aggregate_serialization_mappers(top)
-        except Exception:  # noqa
-            mp = {}
-        for name, f in top.get_all_fields_by_name().items():
-            key = mp.get(name, name)
-            out.append((p["name"], name, key if isinstance(key, str) else name, field_tree(f)))
+        classes = _reachable_classes(ns[p["top"]])
+        seen = set()
+        for cls in classes:
+            try:
+                mp = aggregate_serialization_mappers(cls)
+            except Exception:  # noqa
+                mp = {}
+            for name, f in cls.get_all_fields_by_name().items():
+                key = mp.get(name, name)
+                key = key if isinstance(key, str) else name
+                if (name, key) in seen:
+                    continue
+                seen.add((name, key))
+                out.append((p["name"], name, key, field_tree(f)))
     return out
 
 
@@ -1104,3 +1224,80 @@ def cache_witness_replay(entry, tag_line, rep_profiles=None):
                              "stood": [[s[0], os.path.relpath(s[1], sch.root), s[2], s[3]] for s in stood],
                              "threads": bad, "observed": outs, "sequential": seq, "inputs": [b[1] for b in built]}, tried)
     return None, tried
+
+
+# ============================================================================ census of shared state written by operations
+
+def _fp(v):
+    if isinstance(v, (dict, list, set)):
+        try:
+            return (id(v), len(v), hash(repr(sorted(map(repr, v)))) if len(v) < 200 else len(v))
+        except Exception:  # noqa
+            return (id(v), len(v))
+    return id(v)
+
+
+def _snapshot(user_classes):
+    import types
+    snap = {}
+    for mname, mod in list(sys.modules.items()):
+        if mod is None or not (mname == "typedpy" or mname.startswith("typedpy.")):
+            continue
+        for k, v in list(vars(mod).items()):
+            if isinstance(v, type):
+                if getattr(v, "__module__", "").startswith("typedpy"):
+                    for a, b in list(vars(v).items()):
+                        snap[("class", v.__module__ + "." + v.__qualname__, a)] = _fp(b)
+                continue
+            if isinstance(v, (types.ModuleType, types.FunctionType, types.BuiltinFunctionType)):
+                continue
+            snap[("global", mname, k)] = _fp(v)
+    for c in user_classes:
+        for a, b in list(vars(c).items()):
+            snap[("userclass", c.__qualname__, a)] = _fp(b)
+    return snap
+
+
+def shared_write_census(ca):
+    """Module-level names of typedpy modules, attributes of typedpy's own classes and attributes of the profile's
+    classes whose binding or (container) content differs after the operations of every profile have run.
+    -> (changed keys not accounted for by the generated tables, all changed keys, number of operations)"""
+    allowed = set()
+    for e in ca["entries"]:
+        if e["kind"] != "module-container":
+            continue
+        parts = e["name"].split(".")
+        allowed.add(("global", "typedpy." + ".".join(parts[:-1]), parts[-1]))
+        allowed.add(("class", "typedpy." + ".".join(parts[:-1]), parts[-1]))
+    install_attrs = {i["attr"] for i in ca.get("installs", [])}
+    changed_all = set()
+    n_ops = 0
+    specs = [("construct", True), ("construct", False), ("deserialize", True), ("deserialize", False), ("deser_fn", True),
+             ("setattr", True), ("setattr", False), ("serialize", "serialize"), ("serialize", "Serializer"),
+             ("serialize", "method"), ("construct_serialize", "method"), ("roundtrip", True)]
+    for p in PROFILES:
+        try:
+            twin = declare(p)
+            ns = declare(p)
+            classes = _reachable_classes(ns[p["top"]])
+        except Exception:  # noqa
+            continue
+        before = _snapshot(classes)
+        for spec in specs:
+            for t in (0, 1):
+                try:
+                    op = build_op(p, ns, twin, spec, t)[0]
+                except Exception:  # noqa
+                    continue
+                n_ops += 1
+                try:
+                    op()
+                except Exception:  # noqa
+                    pass
+        after = _snapshot(classes)
+        for k in set(before) | set(after):
+            if before.get(k) != after.get(k):
+                changed_all.add(k)
+    unknown = sorted(k for k in changed_all
+                     if k not in allowed and not (k[0] == "userclass" and k[2] in install_attrs))
+    return unknown, sorted(changed_all), n_ops
